@@ -1,4 +1,5 @@
 import LexgenModel.Proofs.Static
+import LexgenModel.Proofs.Totality
 /-!
 # C17 — Ill-formed definitions are rejected at expansion time (model of `lexer()`'s static checks)
 
@@ -55,5 +56,24 @@ theorem C17_diff_operand_not_a_class (a b : Regex) (h : ¬ IsClassExpr a ∨ ¬ 
 
 /-- non-vacuity: `'a' # "bc"` has a non-class operand -/
 example : ¬ IsClassExpr (.chr 97) ∨ ¬ IsClassExpr (.str [98, 99]) := Or.inr (by simp [IsClassExpr])
+
+/-- Conversely to the rejection theorems: the ONLY ways the model of the macro fails are those static errors —
+it never fails for an internal reason (assertion, non-termination), whatever the definition. -/
+theorem C17_only_user_errors (items : LexerDef) (hp : ItemsPiecesOK items) (e : CompileError)
+    (h : compileLexer items = .error e) :
+    (∃ w, e = .unboundVar w) ∨ (∃ w, e = .unknownBuiltin w) ∨ (∃ w, e = .notAClass w) ∨ (∃ w, e = .varCycle w) ∨
+    (∃ w, e = .dupVar w) ∨ (∃ w, e = .dupRuleSet w) ∨ e = .dupErrorType ∨ e = .mixedRules ∨ e = .firstNotInit := by
+  have hi := compileLexer_no_internal items hp e h
+  cases e with
+  | unboundVar w => exact Or.inl ⟨w, rfl⟩
+  | unknownBuiltin w => exact Or.inr (Or.inl ⟨w, rfl⟩)
+  | notAClass w => exact Or.inr (Or.inr (Or.inl ⟨w, rfl⟩))
+  | varCycle w => exact Or.inr (Or.inr (Or.inr (Or.inl ⟨w, rfl⟩)))
+  | dupVar w => exact Or.inr (Or.inr (Or.inr (Or.inr (Or.inl ⟨w, rfl⟩))))
+  | dupRuleSet w => exact Or.inr (Or.inr (Or.inr (Or.inr (Or.inr (Or.inl ⟨w, rfl⟩)))))
+  | dupErrorType => exact Or.inr (Or.inr (Or.inr (Or.inr (Or.inr (Or.inr (Or.inl rfl))))))
+  | mixedRules => exact Or.inr (Or.inr (Or.inr (Or.inr (Or.inr (Or.inr (Or.inr (Or.inl rfl)))))))
+  | firstNotInit => exact Or.inr (Or.inr (Or.inr (Or.inr (Or.inr (Or.inr (Or.inr (Or.inr rfl)))))))
+  | internal w => simp [CompileError.isInternal] at hi
 
 end Lexgen
